@@ -2737,7 +2737,7 @@ class Entity(MutableMapping[str, str]):
             elif name == "id" and item.value.isnumeric():
                 ent_id = int(item.value)
             elif name.startswith('replace'):
-                ind_str = name[-2:]  # Index is the last 2 digits
+                ind_str = name[7:]  # The index is everything after "replace", usually 2 digits.
                 try:
                     index = int(ind_str)
                 except ValueError:  # Not a replace value!
